@@ -250,7 +250,9 @@ func c10(c *Ctx) {
 	// combine: a variable that cannot be read ends the patch in that very
 	// iteration — the next variable is read only over ok(GetValue)
 	if fn := c.fn(pkgComposite, "ApplyCombineFromVariablesPatch"); fn != nil {
-		gs := cfgx.Calls(fn, func(ci ssa.CallInstruction) bool { return strings.HasSuffix(cfgx.CalleeName(ci), "fieldpath.Paved).GetValue") })
+		gs := cfgx.Calls(fn, func(ci ssa.CallInstruction) bool {
+			return strings.HasSuffix(cfgx.CalleeName(ci), "fieldpath.Paved).GetValue")
+		})
 		if len(gs) == 0 {
 			c.R.Unknown(load.FuncName(fn)+": variable reads", c.pos(fn.Pos()), "no GetValue call found")
 		}
